@@ -4,7 +4,7 @@ from __future__ import annotations
 import ast
 
 from ..core import Report
-from ..eqterms import child_methods
+from ..eqterms import child_methods, equal
 from ..model import Program
 from ..refs import eval_ref_method
 from ..terms import C, Interp, find_unknown, has_unknown, is_const, key, mk_add, same, show, subst, walk
@@ -121,6 +121,7 @@ def run(prog: Program, rep: Report, tier: str):
     from .merge import rule_merge_transforms
     rule_merge_transforms(prog, rep, "C08.merge")
     rule_field_converters(prog, rep)
+    rule_new_constructors(prog, rep, "C08.shape")
     from .lints import rule_truthy
     rule_truthy(prog, rep, "C08.truthy", lambda m: m.name.startswith("flowjax.bijections") or m.name in (
         "flowjax.utils", "flowjax.distributions"))
@@ -130,6 +131,48 @@ def run(prog: Program, rep: Report, tier: str):
 
 
 CONVERTER_OK = ("jnp.asarray", "jnp.array", "jax.numpy.asarray", "tuple", "float", "int", "bool", "arraylike_to_array")
+
+
+def rule_new_constructors(prog, rep, R):
+    """A bijection class that the unchanged tree built with the dataclass-generated constructor (fields stored as
+    passed, then validated by __check_init__) and that now defines __init__: every field named like a parameter must
+    still hold that parameter's value (up to array / tuple casts).  Otherwise the validation and the methods see a
+    rewritten argument (e.g. a boolean mask turned into clamped integer indices)."""
+    from .c05 import simplify_values
+    n = 0
+    for c in bijection_classes(prog):
+        if "__init__" not in c.methods or not prog.recorded_signatures:
+            continue
+        if f"{c.qualname}.__init__" in prog.recorded_signatures:
+            continue
+        known_cls = any(k.startswith(c.qualname + ".") for k in prog.recorded_signatures)
+        if not known_cls:
+            continue  # a class added since the recording: nothing to compare with
+        fn = c.methods["__init__"]
+        a = fn.args
+        params = [p.arg for p in (a.posonlyargs + a.args)[1:] + a.kwonlyargs]
+        pos = [("sym", p.arg.upper()) for p in (a.posonlyargs + a.args)[1:]]
+        kw = {p.arg: ("sym", p.arg.upper()) for p in a.kwonlyargs}
+        try:
+            fields = Interp(prog).eval_init(c, pos, kw)
+        except Exception as e:  # noqa: BLE001
+            rep.undecided(R, method_site(prog, c, "__init__"), f"{c.qualname}.__init__:new", str(e))
+            continue
+        site = method_site(prog, c, "__init__")
+        for p in params:
+            if p not in fields:
+                continue
+            n += 1
+            got = simplify_values(prog, fields[p])
+            ok = equal(got, ("sym", p.upper())) or (
+                got[0] == "call" and got[1] in (("ext", "builtins.tuple"), ("ext", "builtins.list"))
+                and got[2] == (("sym", p.upper()),))
+            rep.check(ok, R, site, f"{c.qualname}.__init__:{p}-stored-as-passed",
+                      "a constructor added to a former dataclass stores the argument itself",
+                      f"{c.name} used to store `{p}` as passed (dataclass constructor); the new __init__ stores "
+                      f"{show(fields[p], 200)}: __check_init__ validates, and the methods use, a rewritten argument")
+    rep.holds(R, "-", "new-constructors-scanned", f"{n} parameter fields of constructors added to former dataclasses",
+              nontrivial=False)
 
 
 def rule_field_converters(prog, rep):
